@@ -193,91 +193,78 @@ def r2_next_token_fixpoint(a, tier):
     return rep
 
 
-def _match_summary(a, fn):
-    """Structural summary of a token matcher `match(self, token)`."""
-    tok = fn.params[1]
-    src = fn.node
-    summary = {}
-    # case folding
-    folds = []
-    for n in walk_no_defs(src):
-        if isinstance(n, ast.If) and 'ignorecase' in norm(n.test):
-            for x in ast.walk(ast.Module(body=n.body, type_ignores=[])):
-                if isinstance(x, ast.Compare) and len(x.comparators) == 1:
-                    l, r = x.left, x.comparators[0]
-                    lf = l.func.attr if isinstance(l, ast.Call) and isinstance(l.func, ast.Attribute) else None
-                    rf = r.func.attr if isinstance(r, ast.Call) and isinstance(r.func, ast.Attribute) else None
-                    folds.append((lf, rf))
-    summary['ignorecase_folds'] = folds
-    # nameguard conjuncts
-    guard = None
-    for n in walk_no_defs(src):
-        if isinstance(n, ast.BoolOp) and isinstance(n.op, ast.And) and any('nameguard' in norm(v) for v in n.values):
-            guard = [norm(v) for v in n.values]
-    summary['nameguard_conjuncts'] = guard
-    # order: move before reading current; goto(p) restore
-    events = []
-    for n in walk_no_defs(src):
-        if isinstance(n, ast.Call):
-            nm = dotted(n.func)
-            if nm in ('self.move', 'self.goto'):
-                events.append((n.lineno, nm + '(' + ','.join(norm(x) for x in n.args) + ')'))
-        if isinstance(n, ast.Attribute) and norm(n) == 'self.current':
-            events.append((n.lineno, 'read current'))
-    summary['events'] = [e for _, e in sorted(events)]
-    summary['token_param'] = tok
-    return summary
+def _match_oracle(text, pos, token, ic, ng, nc):
+    seg = text[pos:pos + len(token)]
+    if not ((seg.lower() == token.lower()) if ic else (seg == token)):
+        return None, pos
+    e = pos + len(token)
+    nxt = text[e] if e < len(text) else None
+
+    def is_nc(c):
+        return c is not None and (c.isalnum() or c in nc)
+    is_name = (token[0].isalpha() or token[0] in nc) and all(is_nc(c) for c in token[1:])
+    if ng and is_nc(nxt) and is_name:
+        return None, pos
+    return token, e
 
 
 def r2_matchers(a, tier):
+    from ..modelinterp import ModelInterp, Stub
     rep = RuleReport(
         'C09.R2b',
-        'sibling token matchers (TextLinesCursor.match, BufferCursor.match, Buffer.match): with ignorecase both sides are '
-        'folded with the same function; the nameguard test is `nameguard and is_name_char(<char AFTER the token>) and '
-        'is_name(token)`: the position is advanced by len(token) before `current` is read, and restored with goto(<saved '
-        'pos>) when the guard rejects; matchre takes no case flag; all three summaries agree',
-        floor=3,
+        'sibling token matchers (TextLinesCursor.match, BufferCursor.match, Buffer.match), interpreted on stand-in inputs for EVERY '
+        'text up to length 3 and token up to length 2 over {a, A, +}, positions 0 and 1 (thorough: every position), ignorecase on/off, nameguard on/off, '
+        '@@namechars {} / {+}: the token matches iff the text at the position equals it (case-folded on both sides under '
+        'ignorecase) and, under nameguard, it is not a name followed by a name character (the character AFTER the token); a match '
+        'returns the token and advances by its length, a rejection leaves the position unchanged; all three agree. matchre takes '
+        'no case flag',
+        floor=3000,
     )
     impls = ['tatsu.input.textlines.TextLinesCursor', 'tatsu.input.buffer.BufferCursor', 'tatsu.input.buffer.Buffer']
-    sums = {}
+    alpha = 'aA+'
+    texts = [''.join(t) for k in range(0, 4) for t in itertools.product(alpha, repeat=k)]
+    tokens = [''.join(t) for k in (1, 2) for t in itertools.product(alpha, repeat=k)]
+    ncsets = [frozenset(), frozenset('+')] if tier == 'thorough' else [frozenset('+')]
+    n_bad = 0
     for c in impls:
         fn = a.p.func(f'{c}.match')
-        s = _match_summary(a, fn)
-        sums[c] = s
-        tok = s['token_param']
-        rep.add({'matcher': fn.qualname, **{k: v for k, v in s.items()}})
-        folds = s['ignorecase_folds']
-        if not folds or any(lf is None or lf != rf for lf, rf in folds):
-            rep.fail(fn.qualname, 'case-fold', f'ignorecase comparison folds the two sides differently or not at all: {folds}', fn.loc)
-        g = s['nameguard_conjuncts']
-        if not g:
-            rep.fail(fn.qualname, 'no-nameguard', 'no nameguard test found: alphanumeric tokens match prefixes of longer names', fn.loc)
-        else:
-            want_char = any(x == 'self.is_name_char(self.current)' for x in g)
-            want_name = any(x == f'self.is_name({tok})' for x in g)
-            want_flag = any(x.endswith('nameguard') for x in g)
-            if not (want_char and want_name and want_flag):
-                rep.fail(fn.qualname, 'nameguard-shape', f'nameguard test is {g}; required: <input>.nameguard and '
-                         f'self.is_name_char(self.current) and self.is_name({tok})', fn.loc)
-        ev = s['events']
-        mv = f'self.move(len({tok}))'
-        try:
-            i_move = ev.index(mv)
-            i_cur = ev.index('read current')
-            ok_order = i_move < i_cur
-        except ValueError:
-            ok_order = False
-        restores = any(e.startswith('self.goto(') for e in ev[ev.index('read current') + 1:]) if 'read current' in ev else False
-        if not ok_order:
-            rep.fail(fn.qualname, 'guard-char', f'the nameguard reads `current` before the position was advanced past the token '
-                     f'(events {ev}): it tests the wrong character', fn.loc)
-        if not restores:
-            rep.fail(fn.qualname, 'no-restore', f'the position is not restored with goto() when the nameguard rejects (events {ev})', fn.loc)
-        # the saved position used for restore is the one read before the move
-        saved = [n.targets[0].id for n in walk_no_defs(fn.node) if isinstance(n, ast.Assign) and norm(n.value) == 'self.pos' and isinstance(n.targets[0], ast.Name)]
-        gotos = [norm(n.args[0]) for n in walk_no_defs(fn.node) if isinstance(n, ast.Call) and dotted(n.func) == 'self.goto' and n.args]
-        if gotos and not all(gx in saved for gx in gotos):
-            rep.fail(fn.qualname, 'restore-target', f'goto({gotos}) does not restore the position saved before matching ({saved})', fn.loc)
+
+        def mk(it, text, pos, ic, ng, nc, c=c):
+            # cursors are built by interpreting their own __init__ on a stand-in input
+            if c.endswith('TextLinesCursor'):
+                inp = Stub('tatsu.input.textlines.TextLines', textstr=text, len=len(text), ignorecase=ic, nameguard=ng,
+                           namechars=set(nc), _namechar_set=set(nc))
+            else:
+                inp = Stub('tatsu.input.buffer.Buffer', pos=pos, text=text, len=len(text), ignorecase=ic, nameguard=ng,
+                           _namechar_set=set(nc), namechars=''.join(nc))
+                if c.endswith('.Buffer'):
+                    return inp
+            me = Stub(c)
+            it.apply(it.get_attr(me, '__init__'), [inp, pos], {})
+            return me
+        for text in texts:
+            for pos in range(len(text) + 1 if tier == 'thorough' else min(2, len(text) + 1)):
+                for token in tokens:
+                    for ic in (False, True):
+                        for ng in (False, True):
+                            for nc in ncsets:
+                                it = ModelInterp(a)
+                                try:
+                                    me = mk(it, text, pos, ic, ng, nc)
+                                    got = it.apply(it.get_attr(me, 'match'), [token], {})
+                                    newpos = it.get_attr(me, 'pos')
+                                except Unsupported as e:
+                                    raise AnalysisError(f'cannot interpret {fn.qualname}: {e}') from e
+                                want = _match_oracle(text, pos, token, ic, ng, nc)
+                                ok = (got, newpos) == want
+                                rep.add({'impl': c.split('.')[-1], 'text': text, 'pos': pos, 'token': token, 'ignorecase': ic,
+                                         'nameguard': ng, 'namechars': ''.join(nc), 'result': got, 'newpos': newpos, 'ok': ok})
+                                if not ok and n_bad < 10:
+                                    n_bad += 1
+                                    rep.fail(fn.qualname, f'match:{text!r}:{pos}:{token!r}:{ic}:{ng}:{"".join(nc)}',
+                                             f'{c.split(".")[-1]}.match({token!r}) on the text {text!r} at {pos} with ignorecase={ic}, '
+                                             f'nameguard={ng}, namechars={"".join(nc)!r} gives (result, position) = {(got, newpos)}; '
+                                             f'required {want}', fn.loc)
         # matchre takes no ignorecase
         mre = a.p.func(f'{c}.matchre')
         reach = [mre] + [a.p.functions[f'{c}.{m}'] for m in ('_scanre',) if f'{c}.{m}' in a.p.functions]
@@ -286,12 +273,6 @@ def r2_matchers(a, tier):
         if uses_case:
             rep.fail(mre.qualname, 'pattern-case', 'pattern matching consults ignorecase: the documentation says patterns are '
                      'not affected by @@ignorecase', mre.loc)
-    base = sums[impls[0]]
-    for c in impls[1:]:
-        for k in ('ignorecase_folds', 'events'):
-            if sums[c][k] != base[k]:
-                rep.fail(f'{c}.match', f'sibling:{k}', f'{c.split(".")[-1]}.match differs from TextLinesCursor.match in {k}: '
-                         f'{sums[c][k]} vs {base[k]}', a.p.func(f'{c}.match').loc)
     # is_name_char / is_name: interpreted over character classes, compared with the documented table and between siblings
     chars = {'a': True, 'Z': True, '7': True, '-': True, '_': False, '+': False, ' ': False, None: False}  # '-' is in @@namechars
     names = {'abc': True, 'a1': True, '-x': True, 'a-b': True, '1a': False, '': False, 'a+b': False, '+': False, 'x': True}
